@@ -30,7 +30,8 @@ ASSUMPTIONS = [
 ]
 REQUIRED_COUNTERS = ["mean_comparisons", "diffusion_comparisons", "variance_bound_checks", "representations_set",
                      "nd_margin_mean_comparisons", "nd_diffusion_comparisons", "nd_central_cell_second_moments",
-                     "nd_central_cell_second_moments_decisive", "nd_central_cell_cross_moments", "pure_jump_models_with_added_brownian_component", "model_object_used_by_an_earlier_chain"]
+                     "nd_central_cell_second_moments_decisive", "nd_central_cell_cross_moments", "pure_jump_models_with_added_brownian_component", "model_object_used_by_an_earlier_chain",
+                     "simulated_diffusion_coefficients"]
 MIN_NONTRIVIAL = {"quick": 60, "thorough": 400}
 SHARD_TIMEOUT = {"quick": 900, "thorough": 7200}
 REPS = ["native", "ZERO", "CENTER", "ONEONE", "TILDE"]
@@ -274,6 +275,44 @@ def _run_1d(case, R):
             if not (abs(eq2 - (sigma**2 + central2)) <= 1e-7 * (sigma**2 + central2) + 10 * e2 + 1e-14):
                 R.violation("1d-diffusion-infinite-variation", f"{label}: infinite variation: equivalent diffusion^2 = {eq2!r}, expected "
                             f"sigma^2 + second moment of the central cell = {sigma**2 + central2!r}", wit)
+    # ... and the coefficient the SIMULATED paths really carry, in the two jump-time modes (recorded normals against the diffusion
+    #     increments of the returned path): sigma for finite variation, sqrt(sigma^2 + second moment of the central cell) otherwise
+    want2 = sigma**2 if fv else (None if central2 is None else sigma**2 + central2)
+    if want2 is not None and want2 > 0 and case.get("level", 0) <= 1 and len(axis) <= 400:
+        from unittest import mock
+        from .C15 import _product as product15
+
+        for mode in ("jumptimes", "maxstep"):
+            try:
+                p2, _ = C.build_chain(model, grid, method, False)
+                prod2 = product15(mode, 2, 0.9)
+                p2.initialisation(prod2, max_step_epsilon=(0.2 if mode == "maxstep" else None))
+                p2.pre_computation(2, prod2)
+                normals = []
+                orig_normal = np.random.normal
+
+                def normal(*a_, **k_):
+                    out = orig_normal(*a_, **k_)
+                    normals.append(np.array(out, dtype=float, copy=True).reshape(-1))
+                    return out
+
+                with mock.patch.object(np.random, "normal", normal):
+                    path = p2.simulate_one_path()
+            except Exception as exc:  # noqa: BLE001
+                R.violation(f"1d-simulate-raises-{mode}", f"{label}/{ctor}: simulate_one_path ({mode}) raises {type(exc).__name__}: {exc}", wit)
+                break
+            t2 = np.asarray(path.jump_times, dtype=float)
+            dD = np.diff(np.asarray(path.diffusion_path, dtype=float).reshape(-1))
+            w = next((a_ for a_ in reversed(normals) if a_.size == dD.size), None)
+            if w is None or dD.size == 0 or np.any(w == 0):
+                R.skip("simulated-diffusion-normals-not-matched")
+                continue
+            c_used = dD / (np.sqrt(np.diff(t2)) * w)
+            R.hit("simulated_diffusion_coefficients")
+            if not (np.max(np.abs(c_used**2 - want2)) <= 1e-6 * want2 + 1e-14):
+                R.violation(f"1d-simulated-diffusion-coefficient-{'fv' if fv else 'iv'}-{mode}", f"{label}/{ctor} level {lev}, {mode} mode: the diffusion increments of "
+                            f"the simulated path are sqrt(dt) w times {float(np.median(np.abs(c_used)))!r}; sigma = {sigma!r}, sigma^2 + second moment of the central "
+                            f"cell = {want2!r} (square root {want2 ** 0.5!r})", wit)
     # variance gap bounded by the per-cell oscillation of x^2
     if 2 - alpha >= 0.25:
         lo_b, hi_b, _ = C.cell_boundaries_1d(grid)
